@@ -80,6 +80,12 @@ Definition check_case (c : case) : Z :=
                       (* the accepted key is a point on the curve and both encodings parse back to it *)
                       match parse_pt C (unhex su) with
                       | Some (x, y) => Secp.on_curve x y && beq_bytes (ser_c C (x, y)) (unhex sc)
+                                       (* ... and the accepted key is the one that was given: re-encoding in the given form is the input
+                                          (python-ecdsa also accepts the raw 64-byte and the hybrid 06/07 forms; those have no SEC re-encoding to compare) *)
+                                       && (match b with
+                                           | 2 :: _ | 3 :: _ => beq_bytes (unhex sc) b
+                                           | 4 :: _ => beq_bytes (unhex su) b
+                                           | _ => true end)
                       | None => false end
                   | Err => true
                   end in
